@@ -485,6 +485,7 @@ func runCheck(args []string) int {
 				"ssa_instructions_interpreted":  total.Steps,
 				"inconclusive":                  len(inconclusive),
 				"known_findings_witnessed":      sortedKeysB(known),
+				"reach_labels":                  reachLabels(reached),
 				"digit_bound_pruned_paths":      total.DigitBoundPruned,
 				"table_reads_abstracted":        total.TableAbstractions,
 				"table_refinement_facts":        total.TableRefinements,
@@ -509,6 +510,16 @@ var baseAssumptions = []string{
 	"instruction table: the embedded JSON is decoded natively and injected as interpreter values following the json tags of gosk's own types; gosk's Go code that post-processes it (fallback forms) is executed symbolically like everything else",
 	"vrt.Once: a concrete, deterministic computation (parsing a literal-free template) is run once per cell and reused across that cell's paths",
 	"'accepted without diagnostic' = run returned normally, no panic/exit, no recorded log/stdout line containing error/failed/unsupported/invalid/unknown/not found/not implemented or 'GOSK :' (generous on purpose: a lenient notion of diagnosed can only lose detections)",
+}
+
+func reachLabels(m map[string]map[string]bool) []string {
+	all := map[string]bool{}
+	for _, mm := range m {
+		for k := range mm {
+			all[k] = true
+		}
+	}
+	return sortedKeysB(all)
 }
 
 func sortedKeysB(m map[string]bool) []string {
